@@ -201,3 +201,11 @@ MUTANTS += [
  ('C18', 'quick-verify-ignores-size', RPZ, "            if size != expected_size:\n                raise VerificationFail(\n                    \"%s is %d bytes%s, should be %d bytes\" % (", "            if size != expected_size and not options.quick:\n                raise VerificationFail(\n                    \"%s is %d bytes%s, should be %d bytes\" % ("),
  ('C18', 'f13-regress', RPZ, "        if fn is not None and startpos == endpos:", "        if False:"),
 ]
+MUTANTS += [
+ ('C08', 'swap-regress-rename-first', FS, "                            os.link(self._file_name, oldpath)\n", "                            os.rename(self._file_name, oldpath)\n"),
+ ('C08', 'pos-not-updated-at-swap', FS, "                    self._initIndex(index, self._tindex)\n                    self._pos = opos", "                    self._initIndex(index, self._tindex)"),
+ ('C08', 'pack-in-progress-check-removed', FS, "            if self._pack_is_in_progress:\n                raise FileStorageError('Already packing')\n            self._pack_is_in_progress = True", "            self._pack_is_in_progress = True"),
+ ('C08', 'failed-pack-keeps-commit-lock', 'FileStorage/fspack.py', "        except OSError:\n            # most probably ran out of disk space or some other IO error\n            close_files_remove()\n            if self.locked:\n                self._commit_lock.release()\n            raise  # don't succeed silently", "        except OSError:\n            # most probably ran out of disk space or some other IO error\n            close_files_remove()\n            raise  # don't succeed silently"),
+ ('C08', 'in-progress-flag-not-reset', FS, "            with self._lock:\n                self._pack_is_in_progress = False\n\n        if not self.pack_keep_old:", "            pass\n\n        if not self.pack_keep_old:"),
+ ('C08', 'restore-on-failure-removed', FS, "                        if not os.path.exists(self._file_name):\n                            os.rename(oldpath, self._file_name)\n                        self._file = open(self._file_name, 'r+b')\n                        raise", "                        raise"),
+]
